@@ -24,6 +24,7 @@ import (
 	"path/filepath"
 	"runtime/debug"
 	"strings"
+	"syscall"
 	"time"
 
 	"github.com/AdguardTeam/AdGuardHome/internal/vfkit"
@@ -54,8 +55,13 @@ const (
 	// edge" in the non-trivial rule.
 	vfC20Edge = 64
 
-	// vfC20Watchdog bounds every single operation (DESIGN §3.5).
+	// vfC20Watchdog bounds every single operation (DESIGN §3.5), in CPU time
+	// of the test process.
 	vfC20Watchdog = 10 * time.Second
+
+	// vfC20Standstill is the wall time after which an operation that neither
+	// finishes nor uses CPU makes the case inconclusive.
+	vfC20Standstill = 10 * time.Minute
 
 	// vfC20KnownEmpty is the known-findings signature under which seeks in
 	// zero-length files are excluded from generation.
@@ -549,19 +555,60 @@ func vfC20Guard(t vfC20Fataler, what string, fn func() (complaint string)) {
 		msg = fn()
 	}()
 
-	timer := time.NewTimer(vfC20Watchdog)
-	defer timer.Stop()
-	select {
-	case o := <-done:
+	finish := func(o outcome) {
 		if o.p != nil {
 			t.Fatalf("panic in %s: %v\n%s", what, o.p, o.stack)
 		}
 		if o.msg != "" {
 			t.Fatalf("%s: %s", what, o.msg)
 		}
-	case <-timer.C:
-		t.Fatalf("%s did not terminate within %s", what, vfC20Watchdog)
 	}
+
+	// Operations take micro- to milliseconds.  The budget is counted in CPU
+	// time of this process, not in wall time: on an overloaded machine a read
+	// can stall for seconds without the code under test looping, whereas a
+	// loop burns CPU.  Only a complete standstill for vfC20Standstill of wall
+	// time makes the case inconclusive.
+	grace := time.NewTimer(time.Second)
+	defer grace.Stop()
+	select {
+	case o := <-done:
+		finish(o)
+
+		return
+	case <-grace.C:
+	}
+
+	cpu0, wall0 := vfC20CPUTime(), time.Now()
+	tick := time.NewTicker(200 * time.Millisecond)
+	defer tick.Stop()
+	for {
+		select {
+		case o := <-done:
+			vfC20.Class("watchdog:slow_operation_finished")
+			finish(o)
+
+			return
+		case <-tick.C:
+			if used := vfC20CPUTime() - cpu0; used > vfC20Watchdog {
+				t.Fatalf("%s did not terminate within %s of CPU time", what, vfC20Watchdog)
+			}
+			if time.Since(wall0) > vfC20Standstill {
+				t.Fatalf("VERIF-INCONCLUSIVE %s: no result after %s of wall time and less than %s of CPU time",
+					what, vfC20Standstill, vfC20Watchdog)
+			}
+		}
+	}
+}
+
+// vfC20CPUTime returns the CPU time (user+system) this process has used.
+func vfC20CPUTime() (d time.Duration) {
+	var ru syscall.Rusage
+	if err := syscall.Getrusage(syscall.RUSAGE_SELF, &ru); err != nil {
+		return 0
+	}
+
+	return time.Duration(ru.Utime.Nano() + ru.Stime.Nano())
 }
 
 // vfC20Short renders a line for a failure message.
